@@ -316,9 +316,10 @@ theorem applyConfirmed_tr (s : St) (conf : Ses) (h : cliRev s.trace = true) :
   unfold applyConfirmed
   split
   · simp only
+    have h' : cliRev (s.log (.confirmed conf.comp conf.enc)).trace = true := by simpa [cliRev] using h
     split
-    · exact applyComp_tr s _ h
-    · exact applyEnc_tr _ _ (applyComp_tr s _ h)
+    · exact applyComp_tr _ _ h'
+    · exact applyEnc_tr _ _ (applyComp_tr _ _ h')
   · exact h
 
 theorem negotiateBlock_good (c : Cfg) (s : St) (ses : Ses) (hp : Post s ses) :
